@@ -400,9 +400,12 @@ def run(ctx):
         'collections uses a normalised key; (compare) every ==/!= with a catalog name has a normalised other side; '
         '(step-integration) every FetchDataframeStep(integration=) is normalised; (resolver) both resolvers pop the first part '
         'only under len(parts) > 1 and a normalised membership test, keep it lower-cased, default to the namespace and raise '
-        'when there is none; (qualifier-strip) the rewrite pops parts[0] only under len > 1 and a normalised comparison with the '
-        'integration; (model-never-fetched) the table branches are control-dependent on "not a predictor"; (version-kept); '
-        '(cte-exemption) the CTE filter is evaluated on probe names and must compare whole names.')
+        'when there is none; (qualifier-strip) prepare_integration_select is interpreted (fail-closed AST interpreter, stand-in traversal) on '
+        '10 identifier shapes x position flags x alias x FROM kinds x "another table aliased like the integration": the qualifier is removed '
+        'exactly when the name has more than one part and its first part is the integration in any letter case; (model-never-fetched) the '
+        'table branches are control-dependent on "not a predictor"; (version-kept) steps that name a model take the name from the reference '
+        'in the query; (cte-exemption) get_query_info is interpreted on 13 probe queries: a CTE shadows exactly the unqualified name it was '
+        'given, every other reference is classified by the database its first part resolves to.')
     ctx.not_decided = ['that the right step is emitted for every query shape', 'table discovery completeness (C13)']
     an = Analysis(ctx)
     an.solve()
